@@ -215,6 +215,9 @@ func (s *WriterOffline) Close() error {
 	// persist the snapshot
 	err = s.directory.Persist(ItemKindSnapshot, s.segIDs[0], snapshot, nil)
 	if err != nil {
+		if closer != nil {
+			_ = closer.Close()
+		}
 		return fmt.Errorf("error recording snapshot: %w", err)
 	}
 
